@@ -76,7 +76,8 @@ def make_data(rng, kind, L, K, D, N, regime='regular', E=None, dtype='float64'):
             y = np.where((lab == k)[..., None], proto[..., k, None, :], y)
         y = y + 0.05 * draw(shape)
     if regime == 'scaled':
-        y = y * 10.0 ** rng.uniform(-150, 150, size=(*L, N, 1))
+        dec = 150 if dtype != 'float32' else 15       # single precision cannot represent 1e+-150
+        y = y * 10.0 ** rng.uniform(-dec, dec, size=(*L, N, 1))
     if regime == 'degenerate':
         y = y.copy()
         y[..., 0, :] = 0                       # zero frame
